@@ -30,16 +30,33 @@ def _deblock_geom(tier):
     return hs
 
 
+YUV = dict(crate="yuv", prefix="bt601::verif_hook::proofs", replay_mod="bt601::verif_hook::replay")
+YUV_QUICK_SIZES = {(1, 1), (2, 1), (3, 2), (4, 2), (5, 3), (7, 3), (9, 2), (6, 1)}
+
+VERUS_WITNESS = {}
+
+
 def kani_harnesses(prop, tier):
     hs = []
+    if prop == "C07":
+        hs.append(dict(YUV, name="px4", nbytes=8, timeout=1200, what="yuv_to_rgba_4x: all 8 input bytes symbolic; lane i == bt601_spec::px(y[i], cb[i/2], cr[i/2]) ++ [255] (whole 2^24 domain on each lane)"))
+        hs.append(dict(YUV, name="coeff", nbytes=0, what="the five 16.16 coefficients == round(65536*c) of the BT.601 rationals"))
+        if tier == "thorough":
+            hs.append(dict(YUV, name="within1_r", nbytes=3, what="oracle lemma on the Rust oracle: |R_fixed - clamp(real)| <= 1"))
+            hs.append(dict(YUV, name="within1_b", nbytes=3, what="oracle lemma on the Rust oracle: |B_fixed - clamp(real)| <= 1"))
+            hs.append(dict(YUV, name="monotone", nbytes=3, timeout=1200, what="oracle lemma on the Rust oracle: monotone in Y, Cb, Cr"))
+    if prop == "C08":
+        hs.append(dict(YUV, name="empty", nbytes=0, what="yuv420_to_rgba(&[],&[],&[],0) returns an empty vector without panic"))
+        for name, w, h in shapes("hooks/yuv/shapes.rs", "geom"):
+            if tier == "quick" and (w, h) not in YUV_QUICK_SIZES:
+                continue
+            cn = ((w + 1) // 2) * ((h + 1) // 2)
+            hs.append(dict(YUV, name=name, nbytes=w * h + 2 * cn, timeout=900,
+                           what="yuv420_to_rgba on an arbitrary %dx%d picture: 4*w*h bytes, pixel (x,y) == F(Y[x,y], Cb[x/2,y/2], Cr[x/2,y/2]) for every pixel (kernel by contract stub, tagging form)" % (w, h),
+                           bound="picture %dx%d (plane contents symbolic)" % (w, h)))
     if prop == "C09":
         hs.append(dict(DEBLOCK, name="kernel_scalar", nbytes=5, what="scalar_impl::process(A,B,C,D,s) == annex_j for all 2^32 x 12 inputs"))
-        if tier == "thorough":
-            hs.append(dict(DEBLOCK, name="kernel_simd", nbytes=33, timeout=1800, what="simd_impl::process_simd: all 8 lanes symbolic, every lane == annex_j"))
-        else:
-            for l in range(8):
-                hs.append(dict(DEBLOCK, name="kernel_simd_lane%d" % l, nbytes=33, timeout=900,
-                               what="simd_impl::process_simd: all 8 lanes symbolic, lane %d == annex_j for all 2^32 x 12 inputs of that lane" % l))
+        hs.append(dict(DEBLOCK, name="kernel_simd", nbytes=33, timeout=1800, what="simd_impl::process_simd: all 8 lanes symbolic (2^32 x 12 inputs per lane, lanes independent), every lane == annex_j"))
         hs += _deblock_geom(tier)
         if tier == "thorough":
             for name, w, h in shapes("hooks/deblock/shapes.rs", "real"):
@@ -56,6 +73,23 @@ NOT_APPLICABLE = {
     "C17": "quantifies over thread schedules and run-to-run repeatability: Kani has no thread support, Verus reasons about concurrency only through its own permission types and there is no concurrent code to annotate (DESIGN.md section 7)",
 }
 
+PROPS["C07"] = dict(
+    level="proof",
+    engine="kani+verus",
+    verus=[dict(unit="bt601_lemmas")],
+    functions=["yuv::bt601::yuv_to_rgba_4x"],
+    level_text="complete proof: the function contract of yuv_to_rgba_4x (every lane == the 16.16 fixed-point BT.601 oracle, alpha 255) is discharged by CBMC on the real SIMD code with all 8 input bytes symbolic, i.e. all 2^24 triples on each of the 4 lanes; the derived clauses (within 1 of the real-valued formula, monotonicity) are Verus lemmas over the oracle formula for all inputs (linear integer arithmetic)",
+    level_note="trusted: Kani/CBMC, Verus/z3, rustc; A-SIMD lane-wise models of _mm_sra_epi32/_mm_sll_epi32 (counterexamples are replayed on the real intrinsics); the oracle spec/bt601.rs is derived from the BT.601 constants; the Verus spec functions are a transcription of that oracle (cross-checked by the thorough-tier Kani lemmas on the Rust oracle)",
+    assumptions=["A-SIMD: hooks/simd_stubs.rs models of _mm_sra_epi32 and _mm_sll_epi32", "Verus spec fns spec_r/g/b transcribe spec/bt601.rs (thorough tier re-proves R, B and monotonicity on the Rust oracle with CBMC)"],
+)
+PROPS["C08"] = dict(
+    level="proof",
+    engine="kani",
+    functions=["yuv::bt601::yuv420_to_rgba"],
+    level_text="BOUNDED proof: the contract of yuv420_to_rgba (length 4*w*h; pixel (x,y) == F(Y[x,y],Cb[x/2,y/2],Cr[x/2,y/2]) for every pixel; empty in => empty out; no panic) is discharged by CBMC per concrete (w,h) with all plane contents symbolic, against the pixel kernel's contract in tagging form. quick: 8 sizes covering every residue of w mod 4 and h mod 2; thorough: every (w,h) in 1..=18 x 1..=6. Sizes beyond are not proved",
+    level_note="trusted: Kani/CBMC; A-PARAM the 4-pixel kernel is replaced by its contract stub F(y,cb,cr)=[y,cb,cr,255] (C07 proves the kernel itself); bytemuck::cast_slice (safe API of a dependency) is compiled as is",
+    assumptions=["A-PARAM: pixel kernel abstracted by its contract (tagging form)", "bounded in picture size"],
+)
 PROPS["C09"] = dict(
     level="proof",
     engine="kani",
